@@ -56,6 +56,11 @@ fn unit_price_rational(value: u128, feed_decimals: u8, token_decimals: u8) -> (B
     (num, den)
 }
 
+/// `PriceFeedPrice.decimals` is the first byte of the zero-copy struct (no public accessor).
+fn feed_decimals(fp: &gmsol_store::states::PriceFeedPrice) -> u8 {
+    bytemuck::bytes_of(fp)[0]
+}
+
 fn part_a(args: &Args, shard: u64, m: &mut Monitor) {
     let mut rng = Rng::derive(args.seed, shard, 0x24);
     let mut w = World::bootstrap_store();
@@ -68,15 +73,15 @@ fn part_a(args: &Args, shard: u64, m: &mut Monitor) {
     ];
     let keeper = w.keeper;
     let mut s = Settings { max_age: 3600, max_range: 300, max_future: 0, per_token: vec![(0, None); 4] };
-    let rounds = args.scale(60, 200);
+    let rounds = args.scale(120, 400);
     for round in 0..rounds {
         // --- settings
         if rng.chance(1, 3) {
-            s.max_age = *rng.pick(&[0u64, 1, 5, 30, 60, 3600]);
+            s.max_age = *rng.pick(&[0u64, 1, 5, 30, 60, 3600, 3600]);
             let _ = w.insert_amount("oracle_max_age", s.max_age);
         }
         if rng.chance(1, 3) {
-            s.max_range = *rng.pick(&[0u64, 1, 3, 10, 300]);
+            s.max_range = *rng.pick(&[0u64, 1, 3, 10, 300, 300]);
             let _ = w.insert_amount("oracle_max_timestamp_range", s.max_range);
         }
         if rng.chance(1, 3) {
@@ -112,13 +117,13 @@ fn part_a(args: &Args, shard: u64, m: &mut Monitor) {
             }
         }
         // --- clock and feeds
-        w.svm.warp(rng.range_i64(1, 40));
+        w.svm.warp(rng.range_i64(1, 15));
         for (i, t) in toks.iter().enumerate() {
-            if rng.chance(1, 5) {
+            if rng.chance(1, 12) {
                 continue; // leave this feed stale
             }
             let now = w.svm.clock.unix_timestamp;
-            let ts = now - rng.range_i64(0, 8) + if rng.chance(1, 6) { rng.range_i64(1, 6) } else { 0 };
+            let ts = now - *rng.pick(&[0i64, 0, 0, 0, 1, 1, 2, 5, 8]) + if rng.chance(1, 8) { rng.range_i64(1, 6) } else { 0 };
             let base: u128 = [60_000u128, 150, 1, 3_000][i] * crate::sim::E18;
             let price = base / 1000 * rng.range(900, 1100) as u128;
             let (bid, ask) = match rng.below(4) {
@@ -135,7 +140,7 @@ fn part_a(args: &Args, shard: u64, m: &mut Monitor) {
                 m.count("feed_updates_rejected");
             }
         }
-        w.svm.warp(rng.range_i64(0, 12));
+        w.svm.warp(*rng.pick(&[0i64, 0, 0, 1, 2, 5, 12]));
         // --- the instruction under observation
         let n = rng.range(1, 4) as usize;
         let mut order: Vec<usize> = (0..4).collect();
@@ -205,8 +210,8 @@ fn part_a(args: &Args, shard: u64, m: &mut Monitor) {
                         m.violation("C24:set_prices:malformed_price_stored", wit("0 < min <= max violated", json!({"token": info.name, "min": stored.min.to_string(), "max": stored.max.to_string()})));
                     }
                     // stored bounds never outside the feed's own [min, max] (conversion truncates)
-                    let (min_n, min_d) = unit_price_rational(*fp.min_price(), fp.decimals(), info.decimals);
-                    let (max_n, max_d) = unit_price_rational(*fp.max_price(), fp.decimals(), info.decimals);
+                    let (min_n, min_d) = unit_price_rational(*fp.min_price(), feed_decimals(fp), info.decimals);
+                    let (max_n, max_d) = unit_price_rational(*fp.max_price(), feed_decimals(fp), info.decimals);
                     if b(stored.max) * &max_d > max_n {
                         m.violation("C24:set_prices:stored_max_above_feed_max", wit("", json!({"token": info.name})));
                     }
@@ -215,7 +220,7 @@ fn part_a(args: &Args, shard: u64, m: &mut Monitor) {
                     }
                     // deviation from the reference (the feed's own `price`)
                     if let Some(f) = dev {
-                        let (ref_n, ref_d) = unit_price_rational(*fp.price(), fp.decimals(), info.decimals);
+                        let (ref_n, ref_d) = unit_price_rational(*fp.price(), feed_decimals(fp), info.decimals);
                         // |p - ref| <= ref*f/UNIT + ref*1e-5 (slack for the decimal rounding of the band)
                         for (name, p) in [("max", stored.max), ("min", stored.min)] {
                             let diff = (b(p) * &ref_d - &ref_n).magnitude().clone();
